@@ -10,10 +10,10 @@ W=/tmp/wt/verify_$NAME
 git -C /repo worktree remove --force $W 2>/dev/null; rm -rf $W
 git -C /repo worktree add -q --detach $W HEAD || exit 2
 mkdir -p $W/_seed && cp $DST/demo.py $W/_seed/
-/tmp/wt/run_with_tree.sh $W $W/_seed/demo.py > $DST/.demo_without.log 2>&1; d0=$?
+/verif/tools/run_with_tree.sh $W $W/_seed/demo.py > $DST/.demo_without.log 2>&1; d0=$?
 git -C $W apply $DST/patch.diff || { echo "patch does not apply"; exit 2; }
-/tmp/wt/run_with_tree.sh $W $W/_seed/demo.py > $DST/.demo_with.log 2>&1; d1=$?
-t=$(/tmp/wt/run_with_tree.sh $W tests 2>&1 | tail -1)
+/verif/tools/run_with_tree.sh $W $W/_seed/demo.py > $DST/.demo_with.log 2>&1; d1=$?
+t=$(/verif/tools/run_with_tree.sh $W tests 2>&1 | tail -1)
 git -C /repo worktree remove --force $W
 echo "demo without change: exit $d0 ; demo with change: exit $d1 ; tests with change: $t"
 out=$(MUT_LINES=6 MUT_TIER=${TIER:-quick} /verif/tools/mutant.sh $DST/patch.diff $P 2>&1)
@@ -25,7 +25,7 @@ notes = open(os.path.join(dst, 'NOTES.md')).read() if os.path.exists(os.path.joi
 meta = {'property': prop, 'source': 'independent sub-agent given only the property text and a scratch worktree',
         'needs_to_manifest': notes.strip()[:1500],
         'verified': {'demo_exit_without_change': int(d0), 'demo_exit_with_change': int(d1), 'test_suite_with_change': t.strip(),
-                     'how': '/tmp/wt/run_with_tree.sh on a fresh git worktree of /repo HEAD (packages imported from the worktree, PLY tables regenerated)'},
+                     'how': '/verif/tools/run_with_tree.sh on a fresh git worktree of /repo HEAD (packages imported from the worktree, PLY tables regenerated)'},
         'check_result': {'command': 'tools/mutant.sh seeded/%s/patch.diff %s (quick tier)' % (os.path.basename(dst), prop),
                          'detected': 'exit=1' in out, 'first_lines': out.strip().splitlines()[:4]}}
 json.dump(meta, open(os.path.join(dst, 'meta.json'), 'w'), indent=1)
